@@ -148,9 +148,14 @@ def run(ctx):
     rr = c.drivers('self.register_window.read_request', exact=True)
     ctx.ob('C24.cross-gating', 'ULPIControlTranslator.read_request', len(rr) == 1 and q.is_zero(rr[0].rhs), None, 'no reads')
     t = ctx.ir('UTMITranslator', 'interface.ulpi', allow_opaque=True)
-    for lhs, rhs in (('control_translator.bus_idle', 'phy_ready & ~transmit_translator.busy'),
-                     ('transmit_translator.bus_idle', 'phy_ready & ~control_translator.busy & ~self.ulpi.dir.i')):
+    for lhs, rhs, want in (
+            ('control_translator.bus_idle', 'phy_ready & ~transmit_translator.busy',
+             {('phy_ready', True), ('transmit_translator.busy', False)}),
+            ('transmit_translator.bus_idle', 'phy_ready & ~control_translator.busy & ~self.ulpi.dir.i',
+             {('phy_ready', True), ('control_translator.busy', False), ('self.ulpi.dir.i', False)})):
         ds = t.drivers(lhs, exact=True)
-        ok = len(ds) == 1 and ds[0].rhs.canon() == rhs and not [x for x in q.atoms(ds[0]) if not x[0].startswith('cfg:')]
+        # compared as a set of conjuncts: `~a & ~b` and `~(a | b)` are the same condition
+        ok = len(ds) == 1 and isinstance(ds[0].rhs, E) and q.conj(ds[0].rhs) == want and \
+            not [x for x in q.atoms(ds[0]) if not x[0].startswith('cfg:')]
         ctx.ob('C24.cross-gating', 'UTMITranslator.' + lhs, ok, ds[0].loc if ds else None,
                '%s <= %s: %s' % (lhs, rhs, [q.fmt(d) for d in ds]))
